@@ -243,6 +243,9 @@ func (w *World) fakeEvents() []envEvent {
 			continue
 		}
 		if f.pc < len(f.script) {
+			if f.ps != nil && f.ps.Hold != nil && f.ps.Hold(w, f.pc) {
+				continue
+			}
 			a := f.script[f.pc]
 			evs = append(evs, envEvent{label: fmt.Sprintf("%s(%s,%q,%d)", a.Kind, f.Key, short(a.Data), a.Code), fire: func() {
 				w.mu.Lock()
